@@ -588,7 +588,7 @@ func (c *constraint) matchesCaret(version *Version) bool {
 			// General rule: exclude prereleases of the same version (like 1.2.3-alpha for ^1.2.3)
 			return false
 		}
-		return false // Don't accept prereleases of different versions
+		// Prereleases of other versions are placed by their order, like any other version
 	}
 
 	// For other versions (both stable or both prerelease), use standard >=constraint and <nextMajor logic
